@@ -56,6 +56,9 @@ PLAIN = ["A", "CA", "1", "42", "ALA", "0.123", "HETATM", "x1", "N", "abc"]
 # what would be line folding in CIF 1.1 (a text field opening with a backslash, lines ending in one) is plain text here
 AWKWARD += ["\\\nfoo", "a\\\nb", "\\\n", "\\\nfirst\\\nsecond", "C:\\temp\\x", "end\\"]
 AWKWARD += ["x" * 300, "a b " * 60, "'" * 7, "line\n" * 12 + "end", " " * 5, "\t\t", "a" + " " * 40 + "b"]
+# the special characters at the END of a value, and mask symbols padded with blanks (neither is a mask state)
+TAILS = ["C#", "x##", "a;", "a_", "a$", "a[", "a]", "a.", "a?", "a'", 'a"', "n#\n", ". ", "? ", " .", " ?", ".  ", "data_", "#", ";"]
+AWKWARD += TAILS
 
 
 def gen_cell(rng, p_awk):
@@ -90,7 +93,14 @@ def gen_table(rng, p_awk, rows=None, ncols=None):
     rows = rows or rng.choice([1, 1, 2, 3, 3, 4, 6, 6, 17, 40])
     ncols = ncols or rng.randint(1, 5)
     names = rng.sample(COLS, ncols)
-    return {"cols": names, "rows": rows, "cells": {n: [gen_cell(rng, p_awk) for _ in range(rows)] for n in names}}
+    cells = {n: [gen_cell(rng, p_awk) for _ in range(rows)] for n in names}
+    # where a value lands matters as much as what it is: the very last cell of a table ends the category's text, the
+    # very first one follows the header directly
+    if p_awk and rng.random() < 0.3:
+        cells[names[-1]][-1] = [rng.choice(TAILS if rng.random() < 0.6 else AWKWARD), 0]
+    if p_awk and rng.random() < 0.15:
+        cells[names[0]][0] = [rng.choice(AWKWARD), 0]
+    return {"cols": names, "rows": rows, "cells": cells}
 
 
 def generate(rng):
